@@ -69,7 +69,7 @@ func (s scenario) String() string {
 	if s.Limit > 0 {
 		f += fmt.Sprintf(" | %d publish token(s)", s.Limit)
 	}
-	return fmt.Sprintf("%v | %s | ack=%s", s.Script, f, []string{"sync", "late", "never"}[s.Ack])
+	return fmt.Sprintf("%v | %s | ack=%s", s.Script, f, []string{"sync", "late", "never", "inside-the-next-publish"}[s.Ack])
 }
 
 func payload(it item) string { return fmt.Sprintf("%s-id%d-m%d", it.Kind, it.ID, it.N) }
@@ -96,9 +96,13 @@ func run(r *h.Run, sc scenario, judge bool) result {
 		b.Mon.LateGate = make(chan struct{})
 		held = true
 	}
+	flushing := false
 	waitLate := func() {
 		if !held {
 			b.Mon.WaitLate()
+		}
+		if flushing {
+			b.Mon.FlushHeld()
 		}
 	}
 	defer func() {
@@ -217,6 +221,10 @@ func run(r *h.Run, sc scenario, judge bool) result {
 			return res
 		}
 		waitLate()
+	}
+	if sc.Ack == bh.AckInNext {
+		b.Mon.FlushHeld()
+		flushing = true // from here on nothing is held back any more
 	}
 	// completion phase: like a real client, retransmit PUBREL for every id whose
 	// PUBREC arrived on some connection and whose PUBCOMP did not
@@ -481,7 +489,10 @@ func pendingHandover(ev []bh.Event, pl string) bool {
 }
 
 func scripts(depth int) [][]item {
-	alpha := []item{{Kind: "q1", ID: 1}, {Kind: "q2", ID: 1}, {Kind: "q2", ID: 1, Dup: true}, {Kind: "rel", ID: 1}, {Kind: "q2", ID: 2}, {Kind: "rel", ID: 2}, {Kind: "drop"}}
+	return scriptsOver([]item{{Kind: "q1", ID: 1}, {Kind: "q2", ID: 1}, {Kind: "q2", ID: 1, Dup: true}, {Kind: "rel", ID: 1}, {Kind: "q2", ID: 2}, {Kind: "rel", ID: 2}, {Kind: "drop"}}, depth)
+}
+
+func scriptsOver(alpha []item, depth int) [][]item {
 	var out [][]item
 	var rec func(cur []item)
 	rec = func(cur []item) {
@@ -531,7 +542,7 @@ func interesting(sc []item) bool {
 func TestCheck(t *testing.T) {
 	r := h.New("C07", "fault_enumeration")
 	depth := r.Pick(3, 4)
-	r.Rule(fmt.Sprintf("all publisher scripts of length <= %d over {PUBLISH q1(1), PUBLISH q2(1), PUBLISH q2(1,dup), PUBREL(1), PUBLISH q2(2), PUBREL(2), drop+resume} containing a QoS>0 publish, each first run without faults to count the packets the broker sends/receives per connection, then re-run with every single fault position (connection c, k-th Send or Receive, before/after; longer scripts take every 2nd or 3rd position with an offset that moves with the script index) x backend acknowledgement mode {sync, late from another goroutine, never}; every script without a repeated QoS 2 PUBLISH per connection also runs with as few publish tokens as it has QoS 2 ids (token timeout 4 s); after the script a completion phase retransmits PUBREL for every id with PUBREC but no PUBCOMP (as a client would) and a SUBSCRIBE fence through the ack queue closes the run. Non-trivial = runs in which a QoS>0 publish reached the backend; distinct by (script, fault, ack mode)", depth))
+	r.Rule(fmt.Sprintf("all publisher scripts of length <= %d over {PUBLISH q1(1), PUBLISH q2(1), PUBLISH q2(1,dup), PUBREL(1), PUBLISH q2(2), PUBREL(2), drop+resume} containing a QoS>0 publish, each first run without faults to count the packets the broker sends/receives per connection, then re-run with every single fault position (connection c, k-th Send or Receive, before/after; longer scripts take every 2nd or 3rd position with an offset that moves with the script index) x backend acknowledgement mode {sync, late from another goroutine, never}; scripts over two QoS 1 ids and two QoS 2 ids run with every acknowledgement held back until the broker is inside Backend.Publish for the next message; every script without a repeated QoS 2 PUBLISH per connection also runs with as few publish tokens as it has QoS 2 ids (token timeout 4 s); after the script a completion phase retransmits PUBREL for every id with PUBREC but no PUBCOMP (as a client would) and a SUBSCRIBE fence through the ack queue closes the run. Non-trivial = runs in which a QoS>0 publish reached the backend; distinct by (script, fault, ack mode)", depth))
 	r.Assume("what the broker 'received' is taken from its own Log(PacketReceived) report")
 	r.Assume("exactly-once is judged for acknowledged hand-overs (sync/late modes); with a backend that never acknowledges only the absence of PUBACK/PUBCOMP is judged")
 	all := scripts(depth)
@@ -635,6 +646,43 @@ func TestCheck(t *testing.T) {
 			cmu.Unlock()
 		}
 	})
+	// acknowledgements that arrive while the broker is inside Backend.Publish for
+	// the next message (two QoS 1 ids, two QoS 2 ids): each PUBACK / PUBCOMP must
+	// still belong to the message the backend acknowledged
+	inNext := scriptsOver([]item{{Kind: "q1", ID: 1}, {Kind: "q1", ID: 2}, {Kind: "q2", ID: 1}, {Kind: "rel", ID: 1}, {Kind: "q2", ID: 2}, {Kind: "rel", ID: 2}}, 3)
+	if !r.Quick() {
+		inNext = scriptsOver([]item{{Kind: "q1", ID: 1}, {Kind: "q1", ID: 2}, {Kind: "q2", ID: 1}, {Kind: "rel", ID: 1}, {Kind: "q2", ID: 2}, {Kind: "rel", ID: 2}, {Kind: "drop"}}, 4)
+	}
+	var nin int64
+	h.Parallel(len(inNext), 16, func(i int) {
+		if !interesting(inNext[i]) {
+			return
+		}
+		// a publisher may not reuse a QoS 2 packet id before it has the PUBCOMP,
+		// and here the PUBCOMP waits for the next hand-over: one PUBLISH per id
+		usedQ2 := map[packet.ID]bool{}
+		for _, it := range inNext[i] {
+			if it.Kind == "q2" {
+				if usedQ2[it.ID] {
+					return
+				}
+				usedQ2[it.ID] = true
+			}
+		}
+		s6 := scenario{Script: inNext[i], Ack: bh.AckInNext}
+		r.Journal("C07 %v", s6)
+		res6 := run(r, s6, true)
+		r.Eval()
+		if res6.inconclusive != "" {
+			r.Inconclusive(fmt.Sprintf("%v: %s", s6, res6.inconclusive))
+			return
+		}
+		r.NonTrivial(s6.String())
+		cmu.Lock()
+		nin++
+		cmu.Unlock()
+	})
+	r.Count("ack_inside_next_publish_runs", nin)
 	// few publish tokens: as many as there are QoS 2 packet ids in the script, plus
 	// one if it has QoS 1 publishes (a publisher needs no more: a token is bound
 	// from PUBLISH to PUBCOMP / PUBACK). Scripts
